@@ -1,63 +1,16 @@
 //go:build verif
 
-// Read-only dump of the oracle module's process-local state (verification hook H1, family
-// oracleadm): agc, agcCheckTx, the caches and updatedFeederIDs.
+// Read-only access to the oracle module's process-local state (verification hook H1, family oracleadm).
+// The hook only hands out the four package-level roots as opaque values; the harness walks them generically
+// with reflection (harness/oracleadm_reflect.go), so that changes of the internal types of the aggregator /
+// cache packages still compile and merely change the dump.
 package keeper
 
-import (
-	"crypto/sha256"
-	"encoding/hex"
-	"encoding/json"
-	"math/big"
-
-	"github.com/ExocoreNetwork/exocore/x/oracle/keeper/cache"
-	"github.com/ExocoreNetwork/exocore/x/oracle/types"
-)
-
-func VerifAdmDumpMem() map[string]interface{} {
-	out := map[string]interface{}{}
-	if agc != nil {
-		out["agc"] = agc.VerifAdmDump()
-	} else {
-		out["agc"] = nil
+func VerifAdmMemRoots() map[string]interface{} {
+	return map[string]interface{}{
+		"agc":              agc,
+		"agcCheckTx":       agcCheckTx,
+		"cs":               cs,
+		"updatedFeederIDs": updatedFeederIDs,
 	}
-	if agcCheckTx != nil {
-		out["agcCheckTx"] = agcCheckTx.VerifAdmDump()
-	} else {
-		out["agcCheckTx"] = nil
-	}
-	if cs != nil {
-		c := map[string]interface{}{}
-		var ms []*cache.ItemM
-		cs.GetCache(&ms)
-		var l []interface{}
-		for _, m := range ms {
-			mi := types.MsgItem(*m)
-			bz, _ := json.Marshal(&mi)
-			l = append(l, json.RawMessage(bz))
-		}
-		c["msgs"] = l
-		vp := map[string]*big.Int{}
-		c["validatorsUpdate"] = cs.GetCache(cache.ItemV(vp))
-		vps := map[string]string{}
-		for k, v := range vp {
-			vps[k] = v.String()
-		}
-		c["validators"] = vps
-		func() {
-			defer func() { _ = recover() }()
-			var p cache.ItemP
-			c["paramsUpdate"] = cs.GetCache(&p)
-			pp := types.Params(p)
-			bz, _ := json.Marshal(&pp)
-			s := sha256.Sum256(bz)
-			c["paramsHash"] = hex.EncodeToString(s[:])
-		}()
-		out["cs"] = c
-	} else {
-		out["cs"] = nil
-	}
-	u := append([]string{}, updatedFeederIDs...)
-	out["updatedFeederIDs"] = u
-	return out
 }
